@@ -1,5 +1,6 @@
 """C14 Everything h3 writes is valid HTTP/3, however the transport takes it."""
 import itertools
+import re
 from engine import flow as fl, ru, paths as pa, expr
 from rules import shared
 
@@ -94,6 +95,23 @@ def run(ctx):
             ok = o[0] == "agg" and o[1] == "tuple" and o[2][0][0] == "call" and o[2][0][1] == "h3::proto::stream::StreamType::grease" and \
                 o[2][1][0] == "agg" and o[2][1][1] == FR + "::Grease"
             ctx.check(ok, "C14-a", gs.key, "grease stream = (StreamType::grease(), Frame::Grease)", "grease stream sends %s" % fl.fmt(o), "")
+    # every WriteBuf is built empty, keeps the frame it was given and encodes the header exactly once
+    want_calls = {"h3::proto::stream::StreamType": ["encode_stream_type"], "h3::stream::UniStreamHeader": ["encode_value"], "h3::stream::BidiStreamHeader": ["encode_value"],
+                  "h3::proto::frame::Frame<B>": ["encode_frame_header"], "(h3::proto::stream::StreamType, h3::proto::frame::Frame<B>)": ["encode_value", "encode_frame_header"]}
+    for wbf in prog.find(r"^<h3::stream::WriteBuf as core::convert::From<.*>>::from$"):
+        src = wbf.id["trait_args"][0] if wbf.id.get("trait_args") else "?"
+        f = fl.Flow(wbf, prog)
+        ags = ru.aggregates(wbf, "h3::stream::WriteBuf")
+        calls_ = [t.ckey.rsplit("::", 1)[-1] for bb, t in wbf.all_terms() if t.t == "call" and (t.ckey or "").startswith("h3::stream::WriteBuf::")]
+        ok = len(ags) == 1 and calls_ == want_calls.get(src)
+        if ok:
+            s_ = ags[0][1]
+            fr = f.origin(ru.field_op(s_, "frame"))
+            has_frame = "Frame<B>" in src
+            ok = ru.const_int(f.origin(ru.field_op(s_, "len"))) == 0 and ru.const_int(f.origin(ru.field_op(s_, "pos"))) == 0 and \
+                ((fr[0] == "agg" and fr[1].endswith("::Some") and fr[2][0][0] == "param") if has_frame else (fr[0] == "agg" and fr[1].endswith("::None")))
+        ctx.check(ok, "C14-a", wbf.key, "WriteBuf from %s: empty cursor, header encoded once (%s), frame kept" % (re.sub(r"[a-z0-9_]+::", "", src), "+".join(want_calls.get(src, ["?"]))),
+                  "WriteBuf::from(%s) builds %s and calls %s" % (src, [(n, fl.fmt(f.origin(ru.field_op(s_[1], n)))[:30]) for s_ in ags for n in ("len", "pos", "frame")], calls_), "")
     # frames never constructed on a send path
     for var in ("Settings", "PushPromise", "CancelPush", "MaxPushId", "WebTransportStream"):
         where = sorted({b.key for b in prog.bodies for bb, s in ru.aggregates(b, FR, var)})
